@@ -131,12 +131,17 @@ CHECKS['C01'] = dict(
           'grouping need them, and any redundant ones, is read back as that tree (induction on the spelling, '
           'XL.Proofs.ParseMin.parse_spelling); minimal_spelling_parses (fewest parentheses), spelling_unambiguous, '
           'groups_left_to_right, stronger_binds_first, sign_binds_strongest, empty_argument_positions, '
-          'parse_fully_parenthesised, extra_parentheses_transparent/_inside. The step from characters to tokens is '
-          'not proved for arbitrary operands (DESIGN §9.2): theorems on the text cover the operator vocabulary '
-          '(pairs/triples) and the correspondence the rest. The model is '
+          'parse_fully_parenthesised, extra_parentheses_transparent/_inside. Character level: compact_text_parses — '
+          'for EVERY well-formed compact tree (unsigned integers, cell names, plain string literals, the twelve binary '
+          'operators, signs, %, calls) the parser model — tokeniser loop with its ten filters and the shunting-yard '
+          'they drive — reads the text without blanks and with the necessary parentheses back as the tree '
+          '(XL.Proofs.LexText/LexTree: each filter cuts off exactly the next token); tokens_to_text. Texts with '
+          'blanks, other literal forms, names, arrays and range operators are not covered by a theorem (DESIGN '
+          '§9.2): pairs/triples cover the operator vocabulary on the text and the correspondence the rest. The model is '
           'compared with Parser().ast on every generated spelling (exhaustive pairs/triples, random trees to depth 5 '
           'in minimal and decorated spellings); the rendering of the parsed tree is compared with the rendering of the '
-          'generating tree (independent oracle) and compiled formulas are evaluated against their trees.'),
+          'generating tree (independent oracle) and compiled formulas are evaluated against their trees; random compact '
+          'trees are printed by the model (driver command ctext) and the implementation must read the text as the tree.'),
     design='DESIGN.md §3 C01',
     note=COMMON_NOTE + 'The regular expressions of the tokeniser are modelled for the lexeme alphabet of DESIGN §3 '
          'C18 only (inputs outside it are answered out-of-domain by the model and reach the direct oracle only). '
